@@ -109,6 +109,8 @@ pub trait Scalar:
     fn shadow(self) -> f32;
     fn record(name: &str, v: Self);
     fn note(s: String);
+    /// make `name` denote the value `v` (instead of a fresh input)
+    fn alias(name: &str, v: Self);
     /// the harness is about to build specification terms (true) / call the code under test (false)
     fn spec(on: bool);
 
@@ -219,6 +221,11 @@ impl Scalar for f32 {
         NATIVE.with(|n| n.borrow_mut().notes.push(s));
     }
     fn spec(_on: bool) {}
+    fn alias(name: &str, v: f32) {
+        NATIVE.with(|n| {
+            n.borrow_mut().assign.insert(name.to_string(), v);
+        })
+    }
 }
 
 impl Scalar for Sf {
@@ -268,5 +275,10 @@ impl Scalar for Sf {
     }
     fn spec(on: bool) {
         dag::spec_mode(on)
+    }
+    fn alias(name: &str, v: Sf) {
+        dag::with(|c| {
+            c.names.insert(name.to_string(), v);
+        })
     }
 }
